@@ -10,6 +10,26 @@ TEXT = {
                 "flat-tree root = RFC 6962 MTH is checked by evaluation per generated tree, not yet by a closed proof.",
         "technique": "Lean 4 proof (induction over audit path / index levels) + differential correspondence with the Rust crate",
     },
+    "C09": {
+        "text": "Lean 4 theorem for every validator set, commit and signature oracle: ensure_commit_has_quorum accepts only if a duplicate-free "
+                "list of validators of the set, each with a signature that verifies under its own key, holds strictly more than 2/3 of the total "
+                "power (threshold exactness by omega), and metadata is kept only if chain id and block hash equal the commit's. Every run drives "
+                "the real function with real ed25519 signatures over generated validator sets / commits and verify_metadata over all mismatch "
+                "combinations, diffs each verdict (incl. error kind) with the model and evaluates the spec on the implementation's verdicts.",
+        "design_ref": "DESIGN.md §6 C09",
+        "note": "Trusted: Lean kernel, hand-written model, harness/driver, ed25519 and tendermint types. Three genuine defects were found and "
+                "repaired (fix: 71ea661, c1a8dd4). RPC transport not modelled.",
+        "technique": "Lean 4 proof (induction over the vote list; omega for thresholds) + differential correspondence with the Rust code",
+    },
+    "C15": {
+        "text": "Lean 4 theorems: validate_proposal accepts a non-empty extended commit only if it matches the last commit entry-wise, voters are "
+                "distinct, every commit vote is validly signed under the stored key of its validator, and signers hold > 2/3 of listed power; an "
+                "empty extended commit is always accepted; the median of any non-empty price list lies between two reported prices. Every run "
+                "executes the real median on generated price vectors and diffs with the model.",
+        "design_ref": "DESIGN.md §6 C15",
+        "note": "Trusted: Lean kernel, hand-written model, harness/driver, ed25519. One genuine defect repaired (fix: 933c6c9).",
+        "technique": "Lean 4 proof (induction over vote lists, sortedness invariant for the median) + differential correspondence",
+    },
     "C16": {
         "text": "Lean 4 invariant proved by induction over every sequence of push / finished-pop / pop_now, every maximum and capacity: "
                 "emitted ++ finished ++ current bundles flatten to exactly the accepted actions in order, every bundle's size is the sum of "
